@@ -139,6 +139,16 @@ fn ip_block(r: Raw, force_range: bool) -> IpBlock {
 }
 
 impl Set {
+    /// the same blocks collected another way: 1 = pushed one by one into the family's builder, 2 = written as text and parsed
+    pub fn build_via(fam: Fam, blocks: &[Raw], force_range: bool, route: u64) -> Set {
+        use rpki::repository::resources::{AsBlocksBuilder, IpBlocksBuilder};
+        match (route % 3, fam) {
+            (1, Fam::As) => { let mut b = AsBlocksBuilder::new(); for &r in blocks { b.push(as_block(r, force_range)); } Set::As(b.finalize()) }
+            (1, f) => { let mut b = IpBlocksBuilder::new(); for &r in blocks { b.push(ip_block(r, force_range)); } Set::Ip(b.finalize(), f) }
+            (2, f) if !blocks.is_empty() => Set::parse(f, &raw_text(f, blocks)).unwrap_or_else(|m| panic!("own text form of blocks refused: {m}")),
+            _ => Set::build(fam, blocks, force_range),
+        }
+    }
     pub fn build(fam: Fam, blocks: &[Raw], force_range: bool) -> Set {
         match fam {
             Fam::As => Set::As(blocks.iter().map(|&r| as_block(r, force_range)).collect()),
@@ -761,6 +771,9 @@ fn replay_pair(s: &mut Summary, c: &Value, embs: &[Emb]) {
     let uni = model_blocks(&c["union"]);
     let a_in_b = c["a_in_b"].as_bool().unwrap();
     let eq = c["eq"].as_bool().unwrap();
+    // (b inside a: every point of b's blocks lies in a - read off the model's own results: b \ a is what is left of the union minus a)
+    let b_in_a = (0..=top).all(|p| !den(&b, p) || den(&a, p));
+    resource_set_crossed(s, c, embs, &a, &b, &inter, &uni, a_in_b, b_in_a);
     for e in embs {
         let mut cx = Ctx { s, case: c, emb: e, top };
         let ra: Vec<Raw> = a.iter().map(|&x| e.block(x)).collect();
@@ -910,6 +923,39 @@ fn resource_set_more(cx: &mut Ctx, sa: &Set, sb: &Set, a: &[(u64, u64)], diff: &
     let all = ResourceSet::all();
     if !all.contains(&ra) { cx.bad("resource_set:all", "ResourceSet::all() does not contain the set".into()); }
     if ra.contains(&all) { cx.bad("resource_set:all", "a one-family set contains ResourceSet::all()".into()); }
+}
+
+/// The three families of one ResourceSet are three sets, not one: A holds a in its AS numbers and IPv6 addresses and b in its
+/// IPv4 addresses, B the other way round, and the IPv4 and IPv6 embeddings are chosen so that the same model block is the same
+/// number in both (the top bits of the 128-bit space) - whatever one family is compared with by mistake looks plausible.
+fn resource_set_crossed(s: &mut Summary, c: &Value, embs: &[Emb], a: &[(u64, u64)], b: &[(u64, u64)], inter: &[(u64, u64)], uni: &[(u64, u64)], a_in_b: bool, b_in_a: bool) {
+    let top = c["top"].as_u64().unwrap();
+    let e = |n: &str| embs.iter().find(|e| e.name == n).unwrap();
+    let (ea, e4, e6) = (e("as_lo"), e("v4_top"), e("v6_top"));
+    let mk = |e: &Emb, m: &[(u64, u64)]| Set::build(e.fam, &m.iter().map(|&x| e.block(x)).collect::<Vec<Raw>>(), false);
+    let r = g(|| -> Result<(), (String, String)> {
+        let part = |s: Set| -> (AsBlocks, IpBlocks) { match s { Set::As(x) => (x, IpBlocks::empty()), Set::Ip(x, _) => (AsBlocks::empty(), x) } };
+        let ra = ResourceSet::new(part(mk(ea, a)).0, part(mk(e4, b)).1.into(), part(mk(e6, a)).1.into());
+        let rb = ResourceSet::new(part(mk(ea, b)).0, part(mk(e4, a)).1.into(), part(mk(e6, b)).1.into());
+        for (name, got, want) in [("union", ra.union(&rb), uni), ("intersection", ra.intersection(&rb), inter)] {
+            for (fam, emb, set) in [("as", ea, Set::As(got.asn().clone())), ("v4", e4, Set::Ip((**got.ipv4()).clone(), Fam::V4)), ("v6", e6, Set::Ip((**got.ipv6()).clone(), Fam::V6))] {
+                if let Err(m) = check_set(&set, want, emb, top) {
+                    return Err((format!("resource_set:crossed:{name}:{fam}"), m));
+                }
+            }
+        }
+        // B contains A iff it does so family by family: as and v6 need a inside b, v4 needs b inside a
+        if rb.contains(&ra) != (a_in_b && b_in_a) {
+            return Err(("resource_set:crossed:contains".into(), format!("contains = {}, specification {}", !(a_in_b && b_in_a), a_in_b && b_in_a)));
+        }
+        Ok(())
+    });
+    match r {
+        Ok(Ok(())) => {}
+        Ok(Err((k, m))) => s.violation(&k, m, c.clone()),
+        Err(m) => s.violation("resource_set:crossed:panic", m, c.clone()),
+    }
+    s.evals(1);
 }
 
 fn resource_set_ops(cx: &mut Ctx, sa: &Set, sb: &Set, inter: &[(u64, u64)], uni: &[(u64, u64)], a_in_b: bool) {
@@ -1195,7 +1241,10 @@ pub fn drive(args: &[String]) {
                     0..=2 => {
                         // now and then a long list of short blocks, so that the canonical form has well over eight blocks
                         let long = rng.chance(1, 4);
-                        let k = if long { rng.range(9, 18) } else { rng.range(0, 6) };
+                        // ... and once in a while a list past any plausible size threshold (65 to 140 blocks of every shape, so
+                        // that blocks share a start, nest and repeat), collected through each of the three routes in turn
+                        let huge = !long && rng.chance(1, 10);
+                        let k = if huge { rng.range(65, 140) } else if long { rng.range(9, 18) } else { rng.range(0, 6) };
                         let mut inp = Vec::new();
                         for _ in 0..k {
                             let x = *rng.pick(&pool);
@@ -1207,7 +1256,8 @@ pub fn drive(args: &[String]) {
                             probes = inp.iter().map(|b| (dst, b.0)).collect();
                         }
                         let raw: Vec<Raw> = inp.iter().map(|&bk| to_raw(fam, bk)).collect();
-                        let set = Set::build(fam, &raw, rng.chance(1, 2));
+                        let route = rng.below(3);
+                        let set = Set::build_via(fam, &raw, rng.chance(1, 2), route);
                         let res = to_units(fam, &set)?;
                         regs[dst] = set;
                         Op::From { dst, inp, res }
